@@ -227,8 +227,8 @@ def execSignal (props : JVal) : M (R ExecRes) := do
           | some p =>
             match childpid with
             | .int c =>
-              let ok ← sendSignalChild p c.toNat sig
-              if !ok then err := some .noSuchProcess
+              let r ← sendSignalChild p c.toNat sig
+              err := r.exc
             | _ => err := some (.other "unmodelled")
         else if children then
           match own with
@@ -239,17 +239,18 @@ def execSignal (props : JVal) : M (R ExecRes) := do
             | none => err := some .noSuchProcess
             | some l =>
               -- `Process.send_signal_children` swallows OSError/ESRCH only: a child that vanished since the lookup
-              -- makes psutil raise NoSuchProcess, which ends the loop and the request
+              -- makes psutil raise NoSuchProcess, one the daemon may not signal AccessDenied: either ends the loop
+              -- and the request
               for c in l do
                 if err.isNone then
-                  let ok ← kKill c sig
-                  if !ok then err := some .noSuchProcess
+                  let r ← kKill c sig
+                  err := r.exc
         else
           match pj with
           | .int i =>
             if i ≥ 0 then
-              let ok ← sendSignal u i.toNat sig
-              if !ok then err := some .noSuchProcess
+              let r ← sendSignal u i.toNat sig
+              err := r.exc
             else pure ()
           | _ => pure ()
           if err.isNone && recursive then
@@ -262,8 +263,8 @@ def execSignal (props : JVal) : M (R ExecRes) := do
               | some l =>
                 for c in l do
                   if err.isNone then
-                    let ok ← kKill c sig
-                    if !ok then err := some .noSuchProcess
+                    let r ← kKill c sig
+                    err := r.exc
     match err with
     | some e => pure (.error e)
     | none => pure (.ok (.value "-"))
